@@ -50,7 +50,11 @@ RULE = ('case = (part, integrator, step size, amplitude, coloured tree) | (stiff
 ONE_STEP = ['backward_forward_euler', 'crank_nicolson_rk2', 'crank_nicolson_rk3', 'crank_nicolson_rk4', 'imex_rk_sil3']
 TEXTBOOK = ['imex_runge_kutta:' + k for k in rt.TEXTBOOK_IMEX]
 LEAPFROG = ['semi_implicit_leapfrog', 'semi_implicit_leapfrog:alpha=0.5']   # default alpha, and alpha passed explicitly
-STIFF_METHODS = ONE_STEP + ['semi_implicit_leapfrog']
+# off-centred leapfrog: alpha is the documented weight of the FUTURE level in the implicit terms
+# (shallow_water.py: f_i(alpha * future + (1 - alpha) * previous)), i.e. the theta method over 2h with theta = alpha;
+# A-stable for alpha >= 1/2, so the non-amplification clause of the property applies to these values
+LEAPFROG_ALPHAS = [0.625, 0.75, 1.0]
+STIFF_METHODS = ONE_STEP + ['semi_implicit_leapfrog'] + ['semi_implicit_leapfrog:alpha=%s' % a for a in LEAPFROG_ALPHAS]
 
 
 def _tier(tier):
@@ -154,8 +158,9 @@ def _factory(method):
     return lambda eq, h: ti.imex_runge_kutta(tab, eq, h)
   if method == 'semi_implicit_leapfrog':
     return lambda eq, h: ti.semi_implicit_leapfrog(eq, h)
-  if method == 'semi_implicit_leapfrog:alpha=0.5':
-    return lambda eq, h: ti.semi_implicit_leapfrog(eq, h, 0.5)
+  if method.startswith('semi_implicit_leapfrog:alpha='):
+    alpha = float(method.split('=')[1])
+    return lambda eq, h: ti.semi_implicit_leapfrog(eq, h, alpha)
   return getattr(ti, method)
 
 
@@ -262,7 +267,8 @@ def _work_order(unit, rec):
 def _work_stiff(unit, rec):
   import jax.numpy as jnp
   method, e = unit['method'], unit['exp']
-  leap = method == 'semi_implicit_leapfrog'
+  leap = method.startswith('semi_implicit_leapfrog')
+  alpha = float(method.split('=')[1]) if '=' in method else 0.5
   factory = _factory(method)
   tab = method == 'crank_nicolson_rk4'
   sig = {'method': method}
@@ -281,7 +287,7 @@ def _work_stiff(unit, rec):
         cur = jnp.asarray(np.hstack([np.zeros((2, 2)), np.eye(2)]))
         c2, fut = step((prev, cur))
         M = np.vstack([np.asarray(c2), np.asarray(fut)])                  # (prev, cur) -> (cur, fut)
-        rr = (1.0 + z) / (1.0 - z)                                       # R_CN(2z): fut = R prev
+        rr = (1.0 + 2.0 * (1.0 - alpha) * z) / (1.0 - 2.0 * alpha * z)    # theta method over 2h, theta = alpha (alpha = 1/2: R_CN(2z)): fut = R prev
         R2 = np.array([[rr.real, -rr.imag], [rr.imag, rr.real]])
         Mref = np.block([[np.zeros((2, 2)), np.eye(2)], [R2, np.zeros((2, 2))]])
         scale = 1.0
